@@ -21,31 +21,41 @@ namespace AgeModel
 namespace Tie.C15
 open Extracted
 
-theorem lazy_write_unopened {φ : Type} (isNil : φ → Bool) (Create : Bytes → Go.M (φ × Option Go.Err))
-    (FW : φ → Bytes → Go.M (Int × Option Go.Err)) (name : Bytes) (f : φ) (hf : isNil f = true) (p : Bytes) :
-    main_lazyOpener_Write isNil Create FW ⟨name, f, none⟩ p =
-      (do let t ← Create name
-          if (t.2 != none) = true then pure (0, t.2, ⟨name, t.1, t.2⟩)
+theorem lazy_write_unopened {τ φ : Type} (isNil : φ → Bool) (Create : Bytes → τ → Go.M (φ × Option Go.Err × τ))
+    (FW : φ → Bytes → τ → Go.M (Int × Option Go.Err × τ)) (name : Bytes) (f : φ) (hf : isNil f = true) (p : Bytes) (t0 : τ) :
+    main_lazyOpener_Write isNil Create FW ⟨name, f, none⟩ p t0 =
+      (do let t ← Create name t0
+          if (t.2.1 != none) = true then pure (0, t.2.1, ⟨name, t.1, t.2.1⟩, t.2.2)
           else do
-            let r ← FW t.1 p
-            pure (r.1, r.2, ⟨name, t.1, t.2⟩)) :=
-  GoTie.lazy_write_unopened isNil Create FW name f hf p
+            let r ← FW t.1 p t.2.2
+            pure (r.1, r.2.1, ⟨name, t.1, t.2.1⟩, r.2.2)) :=
+  GoTie.lazy_write_unopened isNil Create FW name f hf p t0
 
-theorem lazy_write_opened {φ : Type} (isNil : φ → Bool) (FW : φ → Bytes → Go.M (Int × Option Go.Err))
-    (name : Bytes) (f : φ) (hf : isNil f = false) (p : Bytes) :
-    main_lazyOpener_Write isNil (fun _ => .error (.panic 99)) FW ⟨name, f, none⟩ p =
-      (do let r ← FW f p
-          pure (r.1, r.2, ⟨name, f, none⟩)) :=
-  GoTie.lazy_write_opened isNil FW name f hf p
+theorem lazy_write_opened {τ φ : Type} (isNil : φ → Bool) (FW : φ → Bytes → τ → Go.M (Int × Option Go.Err × τ))
+    (name : Bytes) (f : φ) (hf : isNil f = false) (p : Bytes) (t0 : τ) :
+    main_lazyOpener_Write isNil (fun _ _ => .error (.panic 99)) FW ⟨name, f, none⟩ p t0 =
+      (do let r ← FW f p t0
+          pure (r.1, r.2.1, ⟨name, f, none⟩, r.2.2)) :=
+  GoTie.lazy_write_opened isNil FW name f hf p t0
 
-theorem lazy_write_failed {φ : Type} (isNil : φ → Bool) (name : Bytes) (f : φ) (e : Go.Err) (p : Bytes) :
-    main_lazyOpener_Write isNil (fun _ => .error (.panic 99)) (fun _ _ => .error (.panic 98)) ⟨name, f, some e⟩ p =
-      .ok (0, some e, ⟨name, f, some e⟩) :=
-  GoTie.lazy_write_failed isNil name f e p
+theorem lazy_write_failed {τ φ : Type} (isNil : φ → Bool) (name : Bytes) (f : φ) (e : Go.Err) (p : Bytes) (t0 : τ) :
+    main_lazyOpener_Write isNil (fun _ _ => .error (.panic 99)) (fun _ _ _ => .error (.panic 98)) ⟨name, f, some e⟩ p t0 =
+      .ok (0, some e, ⟨name, f, some e⟩, t0) :=
+  GoTie.lazy_write_failed isNil name f e p t0
 
-theorem lazy_close {φ : Type} (isNil : φ → Bool) (FC : φ → Go.M (Option Go.Err)) (name : Bytes) (f : φ) (err : Option Go.Err) :
-    main_lazyOpener_Close isNil FC ⟨name, f, err⟩ = if isNil f = true then .ok none else FC f :=
-  GoTie.lazy_close isNil FC name f err
+theorem lazy_close {τ φ : Type} (isNil : φ → Bool) (FC : φ → τ → Go.M (Option Go.Err × τ)) (name : Bytes) (f : φ)
+    (err : Option Go.Err) (t0 : τ) :
+    main_lazyOpener_Close isNil FC ⟨name, f, err⟩ t0 = if isNil f = true then .ok (none, t0) else FC f t0 :=
+  GoTie.lazy_close isNil FC name f err t0
+
+/-- read in the model's world (`os.Create` = `Cli.create`, `(*os.File).Write` = `Proc.writeFile`), the translated
+    `Write` IS the model's `Proc.write (.lazy name)`: same world, same opener state, same success -/
+theorem lazy_write_refines (eC eW : Go.Err) (l : main_lazyOpener (Option Cli.Path)) (d : Bytes) (p : Cli.Proc)
+    (hp : p.lz = GoTie.lzOf l) :
+    ∃ n e l' w', main_lazyOpener_Write Option.isNone (GoTie.mCreate eC) (GoTie.mFileWrite eW) l d p.w = .ok (n, e, l', w') ∧
+      ((Cli.Proc.write (.lazy l.name) p d).1.w = w' ∧ (Cli.Proc.write (.lazy l.name) p d).1.lz = GoTie.lzOf l' ∧
+        (Cli.Proc.write (.lazy l.name) p d).2 = e.isNone) :=
+  GoTie.lazy_write_refines eC eW l d p hp
 
 /-! `decrypt` of cmd/age/age.go, translated on every run (`errorf` / `errorWithHint`, which end the
 process with status 1, are exit sites — faults 1000 … 1003): the order of effects of `age -d`, and
